@@ -6,7 +6,10 @@ import (
 	"os"
 	"strings"
 
+	"time"
+
 	"github.com/olric-data/olric/internal/cluster/partitions"
+	dmapsvc "github.com/olric-data/olric/internal/dmap"
 	"github.com/olric-data/olric/verif/cluster"
 )
 
@@ -47,5 +50,40 @@ func whereIs(c *cluster.Cluster, dmap, key string) string {
 		}
 		sb.WriteString("; ")
 	}
+	// members that were stopped still have their memory: show what they held when they went away
+	for _, m := range c.Members {
+		if !m.Stopped {
+			continue
+		}
+		fmt.Fprintf(&sb, "%s (STOPPED)", m.Name)
+		if e, ok := zombieEntry(m, partitions.PRIMARY, dmap, key); ok {
+			fmt.Fprintf(&sb, " held PRIMARY copy %q ts=%d", short(string(e.Value)), e.Timestamp)
+		}
+		if e, ok := zombieEntry(m, partitions.BACKUP, dmap, key); ok {
+			fmt.Fprintf(&sb, " held BACKUP copy %q ts=%d", short(string(e.Value)), e.Timestamp)
+		}
+		sb.WriteString("; ")
+	}
 	return sb.String()
+}
+
+// zombieEntry reads an entry from the memory of a stopped member. A member that was
+// "crashed" inside a hook still holds the lock it had at that instant, so the read
+// is given 200 ms and abandoned otherwise.
+func zombieEntry(m *cluster.Member, kind partitions.Kind, dmap, key string) (dmapsvc.VerifEntry, bool) {
+	type res struct {
+		e  dmapsvc.VerifEntry
+		ok bool
+	}
+	ch := make(chan res, 1)
+	go func() {
+		e, ok := m.V.DMap.VerifEntry(kind, dmap, key)
+		ch <- res{e, ok}
+	}()
+	select {
+	case r := <-ch:
+		return r.e, r.ok
+	case <-time.After(200 * time.Millisecond):
+		return dmapsvc.VerifEntry{}, false
+	}
 }
